@@ -60,6 +60,8 @@ type Case struct {
 	Alias map[string]string `json:"alias"`
 	// NoParse: the handler does not call Parse()
 	NoParse bool `json:"noparse"`
+	// Reuse: serve on the API value of the previous case when package and configuration are the same
+	Reuse bool `json:"reuse"`
 	// Resp: index (mod count) of the response constructor the handler uses
 	Resp int `json:"resp"`
 	// extra, op-specific payload
@@ -188,9 +190,32 @@ func buildRequest(c *Case) *http.Request {
 	return r.WithContext(context.Background())
 }
 
-func serve(p *Pkg, c *Case) string {
-	tr := &trace{}
+type apiState struct {
+	key    string
+	apiPtr reflect.Value
+	tr     *trace
+}
+
+var lastAPI *apiState
+
+func cfgKey(c *Case) string {
+	k := struct {
+		Pkg     string
+		Mws     int
+		NF, Sp  bool
+		Cors    bool
+		Auth    map[string][]string
+		NoParse bool
+		Resp    int
+	}{c.Pkg, c.Mws, c.NF, c.Spec, c.Cors, c.Auth, c.NoParse, c.Resp}
+	bs, _ := json.Marshal(k)
+	return string(bs)
+}
+
+func buildAPI(p *Pkg, c *Case) *apiState {
+	st := &apiState{key: cfgKey(c), tr: &trace{}}
 	apiPtr := reflect.ValueOf(p.NewAPI())
+	st.apiPtr = apiPtr
 	api := apiPtr.Elem()
 	at := api.Type()
 	for i := 0; i < at.NumField(); i++ {
@@ -201,7 +226,7 @@ func serve(p *Pkg, c *Case) string {
 			if c.NF {
 				fv.Set(reflect.ValueOf(http.Handler(http.HandlerFunc(func(w http.ResponseWriter, r *http.Request) {
 					_, ok := p.SchemaPath(r)
-					tr.add("NF(%v)", ok)
+					st.tr.add("NF(%v)", ok)
 					w.WriteHeader(404)
 				}))))
 			}
@@ -214,10 +239,10 @@ func serve(p *Pkg, c *Case) string {
 				fn := reflect.MakeFunc(f.Type, func(args []reflect.Value) []reflect.Value {
 					ms := args[0].Interface().([]string)
 					hs := args[1].Interface().([]string)
-					tr.add("CORS(%s;%s)", strings.Join(ms, ","), strings.Join(hs, ","))
+					st.tr.add("CORS(%s;%s)", strings.Join(ms, ","), strings.Join(hs, ","))
 					h := http.Handler(http.HandlerFunc(func(w http.ResponseWriter, r *http.Request) {
 						_, ok := p.SchemaPath(r)
-						tr.add("CORSH(%v)", ok)
+						st.tr.add("CORSH(%v)", ok)
 						w.WriteHeader(204)
 					}))
 					return []reflect.Value{reflect.ValueOf(&h).Elem()}
@@ -231,9 +256,9 @@ func serve(p *Pkg, c *Case) string {
 				mws = append(mws, func(next http.Handler) http.Handler {
 					return http.HandlerFunc(func(w http.ResponseWriter, r *http.Request) {
 						sp, ok := p.SchemaPath(r)
-						tr.add("M%d>(%s,%v)", k, sp, ok)
+						st.tr.add("M%d>(%s,%v)", k, sp, ok)
 						next.ServeHTTP(w, r)
-						tr.add("M%d<", k)
+						st.tr.add("M%d<", k)
 					})
 				})
 			}
@@ -256,7 +281,7 @@ func serve(p *Pkg, c *Case) string {
 						okTok = true
 					}
 				}
-				tr.add("A:%s(%s)=%v", name, hx(tok), okTok)
+				st.tr.add("A:%s(%s)=%v", name, hx(tok), okTok)
 				var r2 *http.Request
 				if okTok {
 					r2 = r.WithContext(context.WithValue(r.Context(), ctxTag{}, name+":"+tok))
@@ -266,23 +291,38 @@ func serve(p *Pkg, c *Case) string {
 			fv.Set(fn)
 		case f.Type.Kind() == reflect.Func && strings.HasSuffix(f.Name, "Handler"):
 			ft := f.Type
+			noParse, resp := c.NoParse, c.Resp
 			fv.Set(reflect.MakeFunc(ft, func(args []reflect.Value) []reflect.Value {
-				tr.add("H:%s", handlerIdent(ft))
+				st.tr.add("H:%s", handlerIdent(ft))
 				req := args[1]
 				if httpm := req.MethodByName("HTTP"); httpm.IsValid() {
 					if hr, _ := httpm.Call(nil)[0].Interface().(*http.Request); hr != nil {
 						if tag, ok := hr.Context().Value(ctxTag{}).(string); ok {
-							tr.add("C:%s", hx(tag))
+							st.tr.add("C:%s", hx(tag))
 						}
 					}
 				}
-				if !c.NoParse {
-					tr.add("P:%s", callParse(req))
+				if !noParse {
+					st.tr.add("P:%s", callParse(req))
 				}
-				return []reflect.Value{makeResponse(p, ft.Out(0), c.Resp)}
+				return []reflect.Value{makeResponse(p, ft.Out(0), resp)}
 			}))
 		}
 	}
+	return st
+}
+
+func serve(p *Pkg, c *Case) string {
+	var st *apiState
+	if c.Reuse && lastAPI != nil && lastAPI.key == cfgKey(c) {
+		st = lastAPI
+		st.tr = &trace{}
+	} else {
+		st = buildAPI(p, c)
+	}
+	lastAPI = st
+	tr := st.tr
+	apiPtr := st.apiPtr
 	w := &countingWriter{h: http.Header{}}
 	func() {
 		defer func() {
